@@ -8,7 +8,7 @@
 // reported as {"panic": "..."}.
 
 use deno_ast::diagnostics::Diagnostic;
-use deno_ast::{MediaType, ModuleSpecifier, ParsedSource, SourceRange};
+use deno_ast::{MediaType, ModuleSpecifier, ParsedSource, SourceRange, SourceRanged, SourceRangedForSpanned};
 use deno_lint::diagnostic::{
   LintDiagnostic, LintDiagnosticDetails, LintDiagnosticRange, LintDocsUrl,
 };
@@ -226,6 +226,7 @@ fn lint_case_with(linter: &Linter, case: &Value) -> Value {
   let display = case["display"].as_bool().unwrap_or(false);
   let entry_ast = case["entry"].as_str() == Some("ast");
   let src_len = src.len();
+  let mut bounds: Option<Vec<usize>> = None;
   let result: Result<Vec<LintDiagnostic>, String> = if entry_ast {
     match deno_ast::parse_program(deno_ast::ParseParams {
       specifier: spec,
@@ -246,7 +247,26 @@ fn lint_case_with(linter: &Linter, case: &Value) -> Value {
       config,
       external_linter: mk_external(case),
     }) {
-      Ok((_ps, ds)) => Ok(ds),
+      Ok((ps, ds)) => {
+        if case["bounds"].as_bool().unwrap_or(false) {
+          let base = ps.text_info_lazy().range().start;
+          let mut b: Vec<usize> = vec![0, src_len];
+          for t in ps.tokens() {
+            let r = t.range();
+            b.push(r.start.as_byte_index(base));
+            b.push(r.end.as_byte_index(base));
+          }
+          for c in ps.comments().get_vec() {
+            let r = c.range();
+            b.push(r.start.as_byte_index(base));
+            b.push(r.end.as_byte_index(base));
+          }
+          b.sort();
+          b.dedup();
+          bounds = Some(b);
+        }
+        Ok(ds)
+      }
       Err(e) => Err(format!("{}", e.message())),
     }
   };
@@ -254,7 +274,10 @@ fn lint_case_with(linter: &Linter, case: &Value) -> Value {
     Ok(ds) => {
       let out: Vec<Value> =
         ds.iter().map(|d| diag_json(d, src_len, display)).collect();
-      json!({ "ok": out })
+      match bounds {
+        Some(b) => json!({ "ok": out, "bounds": b }),
+        None => json!({ "ok": out }),
+      }
     }
     Err(m) => json!({ "parse_error": m }),
   }
